@@ -266,6 +266,31 @@ def _prove_store(mod, fn, inst, addr, size_arg):
                             if (g[0] == 'sge' and k >= C) or (g[0] == 'sgt' and k >= C - 1):
                                 return True, 'S3 block write at start+len-%d of %d bytes under len >= %d' % (C, n, C)
                 return False, 'block write at start + (len - %d) of %s bytes is not guarded by len >= %d' % (C, n, C)
+        # S4: a single element at start[len - C] (C >= 1) under len >= C; S5: start[K] (constant K >= 0) under len > K
+        if size_arg is None:
+            C = None
+            if isinstance(ix, str) and ix in fn.imap and fn.imap[ix].op in ('sub', 'add'):
+                s4 = fn.imap[ix]
+                ll = _load_of(mod, fn, s4.ops[0], F_LEN)
+                if ll is not None and IR.is_int(s4.ops[1]):
+                    C = IR.ival(s4.ops[1]) if s4.op == 'sub' else -IR.ival(s4.ops[1])
+                    if C >= 1:
+                        for g in guards:
+                            l2 = _load_of(mod, fn, g[1], F_LEN)
+                            if l2 is not None and IR.is_int(g[2]) and _same_value(mod, fn, l2, ll):
+                                k = IR.ival(g[2])
+                                if (g[0] == 'sge' and k >= C) or (g[0] == 'sgt' and k >= C - 1):
+                                    return True, 'S4 start[len-%d] under len >= %d' % (C, C)
+                        return False, 'store at start[len - %d] is not guarded by len >= %d' % (C, C)
+            if IR.is_int(idx) and IR.ival(idx) >= 0:
+                Kc = IR.ival(idx)
+                for g in guards:
+                    l2 = _load_of(mod, fn, g[1], F_LEN)
+                    if l2 is not None and IR.is_int(g[2]):
+                        k = IR.ival(g[2])
+                        if (g[0] == 'sgt' and k >= Kc) or (g[0] == 'sge' and k >= Kc + 1):
+                            return True, 'S5 start[%d] under len > %d' % (Kc, Kc)
+                return False, 'store at start[%d] is not guarded by len > %d' % (Kc, Kc)
         return False, 'index is neither the guarded cursor nor a guarded offset from the end'
     # S2: *--p with p descending from start+len, guarded by p > start
     if size_arg is None and IR.is_int(idx) and IR.ival(idx) == -1 and isinstance(base, str) and base in fn.imap and fn.imap[base].op == 'phi':
